@@ -1,6 +1,7 @@
 #!/bin/bash
-# C07: the end-to-end fault-script stream over QUIC. Not part of ./check (the harness has to be built with its
-# optional `quic` feature, which changes the transport set litep2p is compiled with for every property); run by hand:
+# C07: the end-to-end fault-script stream over QUIC. Run by the thorough tier of ./check C07 (cfg thorough_streams) and
+# by hand; the harness is built a second time with its optional `quic` feature into harness/target-quic (that feature
+# changes the transport set litep2p is compiled with, so the default build of the harness does not have it):
 #     source /work/<ID>/env.sh; tools/c07_quic_stream.sh [seed] [report-level cases] [one scenario per N of them]
 # Builds harness/ with `--features quic` into harness/target-quic, runs the C07 stream with every scenario over
 # QUIC, runs the extracted model (ocaml/build/C07/driver, built by ./check C07) on the same cases and prints
@@ -12,7 +13,12 @@ SEED=${1:-1}; CASES=${2:-1000}; EVERY=${3:-4}
 D=$V/ocaml/build/C07/driver
 [ -x "$D" ] || { echo "run ./check C07 first (extracted model missing)"; exit 2; }
 W=$V/work/C07-quic; mkdir -p "$W"
-(cd "$V/harness" && CARGO_NET_OFFLINE=true CARGO_TARGET_DIR="$V/harness/target-quic" timeout 3000 cargo build --offline --features quic 2>&1 | grep -E "^error|Finished" )
+if ! (cd "$V/harness" && CARGO_NET_OFFLINE=true CARGO_TARGET_DIR="$V/harness/target-quic" timeout 3000 cargo build --offline --features quic > "$W/build.log" 2>&1); then
+  grep -E "^error" -A8 "$W/build.log" | head -40
+  echo "C07 quic stream: the harness does not build with --features quic"
+  exit 3
+fi
+grep -E "Finished" "$W/build.log" || true
 "$V/harness/target-quic/debug/verif-harness" c07 --seed "$SEED" --cases "$CASES" --e2e-every "$EVERY" --quic 1 \
     --out-cases "$W/q.cases" --out-trace "$W/q.impl"
 "$D" run < "$W/q.cases" > "$W/q.model"
@@ -24,10 +30,20 @@ c = open(w + "/q.cases").read().splitlines(); t = open(w + "/q.impl").read().spl
 m = open(w + "/q.model").read().splitlines(); ok = open(w + "/q.ok").read().split()
 bad = [i for i in range(len(c)) if t[i] != m[i]]
 fail = [i for i, v in enumerate(ok) if v == "0"]
-quic = sum(1 for x in c if x.startswith("1 ") and (int(x.split()[2]) >> 1) == 2)
+quic = sum(1 for x in c if x.startswith("1 ") and ((int(x.split()[2]) >> 1) & 3) == 2)
 print("C07 quic stream: %d cases (%d QUIC scenarios), %d disagreements, %d oracle failures outside known classes, %d in known class" % (
     len(c), quic, len(bad), len(fail), sum(1 for v in ok if v.startswith("k"))))
 for i in (bad + fail)[:5]:
     print("case:", c[i]); print("# impl: ", t[i]); print("# model:", m[i])
+if fail:
+    import os
+    v = os.path.dirname(os.path.dirname(w))
+    os.makedirs(os.path.join(v, "replays"), exist_ok=True)
+    rp = os.path.join(v, "replays", "C07-quic.case")
+    i = fail[0]
+    open(rp, "w").write("# property C07 fails on this QUIC scenario (oracle prop_ok = false on the implementation's trace);\n"
+                        "# it needs the harness built with `--features quic`: harness/target-quic/debug/verif-harness c07 --replay <this file> ...\n"
+                        "case: %s\n# impl:  %s\n# model: %s\n" % (c[i], t[i], m[i]))
+    print("STREAM-VIOLATION " + rp)
 sys.exit(1 if bad or fail else 0)
 PY
